@@ -217,14 +217,19 @@ pub fn check(c: &Case, obs: &mut Obs) -> Verdict {
         Ok(Err(e)) => return Verdict::fail(format!("own JSON rejected: {e}\n{json}")),
         Err(p) => return Verdict::fail(format!("JSON reader panicked: {} at {}", p.msg, p.loc)),
     };
+    // (the statement's allowance - a zero fee or tax may lose its currency label - covers both
+    // round trips)
     if from_json != txs {
-        let first = txs.iter().zip(from_json.iter()).find(|(a, b)| a != b);
-        return Verdict::fail(format!("JSON round trip changed a transaction: {first:?}\n{json}"));
+        if let Err(e) = eq_upto_zero_label(&txs, &from_json) {
+            let first = txs.iter().zip(from_json.iter()).find(|(a, b)| a != b);
+            return Verdict::fail(format!("JSON round trip changed a transaction: {e}: {first:?}\n{json}"));
+        }
+        obs.class("json_roundtrip_differs_only_in_zero_clause_label");
     }
     // pretty JSON (what the CLI prints) too
     let pretty = serde_json::to_string_pretty(&txs).unwrap_or_default();
     match serde_json::from_str::<Vec<Transaction>>(&pretty) {
-        Ok(v) if v == txs => {}
+        Ok(v) if v == txs || eq_upto_zero_label(&txs, &v).is_ok() => {}
         Ok(_) => return Verdict::fail("pretty JSON round trip changed a transaction".to_string()),
         Err(e) => return Verdict::fail(format!("own pretty JSON rejected: {e}")),
     }
